@@ -2,10 +2,10 @@ package sim
 
 import (
 	"fmt"
-	"os"
-	"strings"
 	"math/big"
+	"os"
 	"sort"
+	"strings"
 
 	abci "github.com/cometbft/cometbft/abci/types"
 	sdk "github.com/cosmos/cosmos-sdk/types"
@@ -234,6 +234,10 @@ func (w *World) BuildTx(t *Tx, forCheck bool) *BuiltTx {
 	granteeIdx := t.Grantee
 	ops := w.expandOps(t.Ops)
 	for i := range ops {
+		if t.Wrap == WrapExecTail && t.TailSelf && i > 0 && granteeIdx >= 0 {
+			ops[i].Actor, ops[i].Named = granteeIdx, -1
+			w.Class("tx.exec-tail-in-the-first-signer's-own-name")
+		}
 		bo := w.buildOp(&ops[i])
 		bt.Ops = append(bt.Ops, bo)
 		if wrapped && granteeIdx < 0 {
@@ -265,7 +269,7 @@ func (w *World) BuildTx(t *Tx, forCheck bool) *BuiltTx {
 		}
 		// predictions are made against the transaction's pre-state: for the second and later
 		// messages only the state-independent reason (signature cannot verify) stays a Must
-		if i > 0 && e.Verdict == MustReject && e.Why != "message names an account that did not sign the transaction" {
+		if i > 0 && e.Verdict == MustReject && !stableReject[e.Why] {
 			e = either()
 		}
 		switch e.Verdict {
@@ -324,9 +328,31 @@ func (w *World) BuildTx(t *Tx, forCheck bool) *BuiltTx {
 		signers = []Addr{proposer}
 		verdict, props, why = Either, nil, ""
 	}
-	if t.Fault != lab.FaultNone {
+	var signOver []sdk.Msg
+	fault := t.Fault
+	if fault == lab.FaultTamper {
+		// somebody alters one field of the first message after the transaction was signed
+		var alt sdk.Msg
+		if t.Wrap == WrapTop && len(msgs) > 0 {
+			alt = w.tamperMsg(msgs[0], t.TamperK)
+		}
+		if alt == nil {
+			fault = lab.FaultWrongKey
+		} else {
+			signOver = msgs
+			msgs = append([]sdk.Msg{alt}, msgs[1:]...)
+			w.Class("tx.altered-after-signing")
+			if t.Amino {
+				w.Class("tx.altered-after-signing.amino-json")
+			}
+		}
+	}
+	if fault != lab.FaultNone {
 		verdict, props, why = MustReject, []string{"C13"}, "transaction signature / sequence / chain-id is invalid"
-		if t.Fault != lab.FaultWrongKey {
+		if fault == lab.FaultTamper {
+			why = "the message that is sent differs from the message the signer signed"
+		}
+		if fault != lab.FaultWrongKey && fault != lab.FaultTamper {
 			props = nil
 		}
 	}
@@ -359,7 +385,10 @@ func (w *World) BuildTx(t *Tx, forCheck bool) *BuiltTx {
 	if gas == 0 {
 		gas = DefaultGas
 	}
-	spec := lab.TxSpec{Msgs: msgs, Fee: bt.Fee, Gas: gas, Fault: t.Fault, Payer: explicitPayer}
+	spec := lab.TxSpec{Msgs: msgs, Fee: bt.Fee, Gas: gas, Fault: fault, Payer: explicitPayer, Amino: t.Amino, SignOver: signOver}
+	if t.Amino {
+		w.Class("tx.signed-amino-json")
+	}
 	for _, s := range signers {
 		if s.Acct == nil {
 			bt.BuildErr = fmt.Errorf("signer %s has no key", s.Name)
@@ -367,7 +396,7 @@ func (w *World) BuildTx(t *Tx, forCheck bool) *BuiltTx {
 		}
 		spec.Signers = append(spec.Signers, s.Acct)
 	}
-	if t.Fault == lab.FaultWrongKey {
+	if fault == lab.FaultWrongKey {
 		spec.WrongKeyWith = w.acct(signers[0].Acct.Idx + 1).Acct // the first signer's signature is made with another account's key
 	}
 	if t.Granter > 0 {
@@ -401,6 +430,24 @@ func (w *World) BuildTx(t *Tx, forCheck bool) *BuiltTx {
 	return bt
 }
 
+// stableReject: reasons for a refusal that no earlier message of the same transaction can remove (ownership and the
+// signer set do not change inside a transaction, recorded heights and limits only grow, decisions only accumulate, order
+// statuses move in begin-block only, and the harness has no message that creates an authz grant). The other reasons
+// (unknown identifier, purchaser not whitelisted, stream not there) can be cured by an earlier message.
+var stableReject = map[string]bool{
+	"message names an account that did not sign the transaction": true,
+	"record by someone other than the owner":                     true,
+	"purchase by someone other than the owner":                   true,
+	"decider is not a currently authorised signer":               true,
+	"whitelist change by a non-signer":                           true,
+	"parameter update not issued by the governance authority":    true,
+	"signer already decided on this order":                       true,
+	"order is not in raised status":                              true,
+	"height not strictly above the last recorded height":         true,
+	"purchase would raise the limit above the maximum in force":  true,
+	"exec by a grantee without a grant from the named party":     true,
+}
+
 func evs(in []abci.Event) []sdkEvent {
 	out := make([]sdkEvent, 0, len(in))
 	for _, e := range in {
@@ -427,6 +474,12 @@ func (w *World) RunTx(t *Tx) *BuiltTx {
 	if bt.BuildErr != nil {
 		w.tracef("  tx (unbuildable: %v) %s", bt.BuildErr, desc)
 		w.Class("tx.unbuildable")
+		if t.Amino {
+			w.Class("tx.unbuildable.amino-json")
+			if os.Getenv("VERIF_DEBUG_BUILD") != "" {
+				fmt.Println("UNBUILDABLE-AMINO:", short(bt.BuildErr.Error()))
+			}
+		}
 		return bt
 	}
 	for _, h := range w.hooks {
